@@ -1029,3 +1029,125 @@ func extractStubgen(p *pkgs, out string) {
 	l.printf("]\n")
 	must(l.finish(out))
 }
+
+// ---------------------------------------------------------------------------
+// in-process server context
+
+func extractCtx(p *pkgs, out string) {
+	l := newLean("Ctx.lean", "inprocgrpc/in_process.go: makeServerContext layers and noValuesContext.Value")
+	pk := p.byPath[mod+"/inprocgrpc"]
+	_, fd := p.funcDecl(mod+"/inprocgrpc", "makeServerContext")
+	if fd == nil || pk == nil {
+		fail("inprocgrpc/in_process.go", "makeServerContext", "not found")
+		must(l.finish(out))
+		return
+	}
+	var layers []string
+	var walk func(stmts []ast.Stmt, guard string)
+	classify := func(e ast.Expr, guard string) {
+		switch x := e.(type) {
+		case *ast.CallExpr:
+			// context.Context(noValuesContext{ctx}) or pkg.Func(...)
+			if len(x.Args) == 1 {
+				if cl, ok := x.Args[0].(*ast.CompositeLit); ok {
+					if id, ok := cl.Type.(*ast.Ident); ok {
+						layers = append(layers, guard+"wrap:"+id.Name)
+						return
+					}
+				}
+			}
+			if sel, ok := x.Fun.(*ast.SelectorExpr); ok {
+				name := sel.Sel.Name
+				if pkgID, ok := sel.X.(*ast.Ident); ok {
+					name = pkgID.Name + "." + name
+				}
+				arg := ""
+				if name == "context.WithValue" && len(x.Args) == 3 {
+					if u, ok := x.Args[1].(*ast.UnaryExpr); ok {
+						if id, ok := u.X.(*ast.Ident); ok {
+							arg = ":" + id.Name
+						}
+					}
+					if id, ok := x.Args[2].(*ast.Ident); ok {
+						arg += ":" + id.Name
+					}
+				}
+				layers = append(layers, guard+name+arg)
+			}
+		case *ast.CompositeLit:
+			if id, ok := x.Type.(*ast.Ident); ok {
+				layers = append(layers, guard+"wrap:"+id.Name)
+			}
+		}
+	}
+	walk = func(stmts []ast.Stmt, guard string) {
+		for _, st := range stmts {
+			switch s := st.(type) {
+			case *ast.AssignStmt:
+				if len(s.Rhs) == 1 {
+					classify(s.Rhs[0], guard)
+				}
+			case *ast.IfStmt:
+				g := "if:"
+				if as, ok := s.Init.(*ast.AssignStmt); ok && len(as.Rhs) == 1 {
+					if call, ok := as.Rhs[0].(*ast.CallExpr); ok {
+						if sel, ok := call.Fun.(*ast.SelectorExpr); ok {
+							g = "if(" + sel.Sel.Name + "):"
+						}
+					}
+				}
+				walk(s.Body.List, g)
+			}
+		}
+	}
+	walk(fd.Body.List, "")
+	l.printf("def serverCtxLayers : List String := [")
+	for i, s := range layers {
+		if i > 0 {
+			l.printf(", ")
+		}
+		l.printf("%s", leanStr(s))
+	}
+	l.printf("]\n")
+	// noValuesContext.Value
+	_, vm := p.methodDecl(mod+"/inprocgrpc", "noValuesContext", "Value")
+	ret := "missing"
+	if vm != nil && len(vm.Body.List) == 1 {
+		if rs, ok := vm.Body.List[0].(*ast.ReturnStmt); ok && len(rs.Results) == 1 {
+			if id, ok := rs.Results[0].(*ast.Ident); ok && id.Name == "nil" {
+				ret = "nil"
+			} else {
+				ret = "other"
+			}
+		}
+	} else if vm != nil {
+		ret = "other"
+	}
+	l.printf("def noValuesValueReturns : String := %s\n", leanStr(ret))
+	// which context the handler is given: Invoke / NewStream pass makeServerContext(ctx) wrapped by NewContextWithServerTransportStream
+	for _, fn := range []struct{ goName, lean string }{{"Invoke", "invokeHandlerCtx"}, {"NewStream", "newStreamHandlerCtx"}} {
+		_, m := p.methodDecl(mod+"/inprocgrpc", "Channel", fn.goName)
+		shape := ""
+		if m != nil {
+			ast.Inspect(m, func(n ast.Node) bool {
+				call, ok := n.(*ast.CallExpr)
+				if !ok {
+					return true
+				}
+				if sel, ok := call.Fun.(*ast.SelectorExpr); ok && sel.Sel.Name == "NewContextWithServerTransportStream" && len(call.Args) == 2 {
+					switch a := call.Args[0].(type) {
+					case *ast.CallExpr:
+						if id, ok := a.Fun.(*ast.Ident); ok {
+							shape = "sts(" + id.Name + ")"
+						}
+					case *ast.Ident:
+						shape = "sts(var " + a.Name + ")"
+					}
+				}
+				return true
+			})
+		}
+		l.printf("def %s : String := %s\n", fn.lean, leanStr(shape))
+	}
+	must(l.finish(out))
+}
